@@ -169,6 +169,13 @@ class UDeep(UBase2):
 class UTypeErrInt(TypeError):
   pass
 
+def _factory(tag):
+  class FactoryErr(Exception):
+    origin = tag
+  return FactoryErr
+FactoryA = _factory('a')
+FactoryB = _factory('b')
+
 class UNoneAttr(Exception):
   __slots__ = ('slot_none',)
   def __init__(self, msg):
@@ -203,6 +210,8 @@ USER_CTORS = [
     ('UBase2', "UBase2('base-first')"),
     ('UDeep', "UDeep('deep')"),
     ('UNoneAttr', "UNoneAttr('has none')"),
+    ('FactoryA', "FactoryA('first of two classes with one qualified name')"),
+    ('FactoryB', "FactoryB('second')"),
     ('UTypeErrInt', "UTypeErrInt(4, 2)"),
     ('UTypeErrInt', "UTypeErrInt()"),
     ('UNoArgsInit', "UNoArgsInit()"),
@@ -232,7 +241,8 @@ def gen(rng, tier):
   levels = []
   for d in range(depth):
     levels.append({'scope': rng.choice(['', '', 'sa', 'sa/sb']),
-                   'kind': rng.choice(['fn', 'fn', 'cls_init', 'cls_new'])})
+                   'kind': rng.choice(['fn', 'fn', 'cls_init', 'cls_new',
+                                       'partial'])})
   site = rng.choice(SITES)
   return {'site': site, 'levels': levels, 'only': None,
           'sample': None if tier == 'thorough' else None}
@@ -326,6 +336,16 @@ def run(case):
     kind = lv['kind']
     if d == depth - 1 and site in ('cls_init', 'cls_new'):
       kind = site
+    if kind == 'partial':
+      # a configurable whose repr contains braces and quotes
+      import functools
+      base, _ = probes.compile_probe(
+          {'name': names[d], 'kind': 'fn',
+           'params': [{'n': 'table', 'k': 'def', 'd': None}]}, hook)
+      part = functools.partial(base, table={'{k}': '{0}', 'q': "'\"%s"})
+      objs[names[d]] = gin.external_configurable(part, name=names[d],
+                                                 module='ginsim_probes')
+      continue
     obj, _ = probes.compile_probe({'name': names[d], 'kind': kind, 'params': []},
                                   hook)
     objs[names[d]] = probes.register_probe({'name': names[d]}, obj)
